@@ -3,6 +3,7 @@
 From Coq Require Import List NArith ZArith Bool.
 Import ListNotations.
 From Mos Require Import Gen.OpcodeTable spec.Isa model.Encode proofs.EncodeProofs.
+From Mos Require Import model.Segment model.SymTab model.Asm proofs.AsmConcat.
 Open Scope Z_scope.
 
 (* The translated opcode table, read through the operand parser's form mapping, is the ISA matrix
@@ -44,6 +45,28 @@ Theorem C01_branch_to_zero_refuted :
   exists m pc, is_branch m = true /\ spec_branch m pc 0 = None /\ code_encode m FAbs 0 (Some pc) = Some [208%N; 0%N].
 Proof. exact branch_to_zero_refuted. Qed.
 Print Assumptions C01_branch_to_zero_refuted.
+
+(* Neighbour independence on the assembler model (model/Asm.v, the emit_token loop of codegen/mod.rs): a sequence of
+   position-independent statements (non-branch instructions whose operand is absent or a closed expression, data with
+   closed values) emitted into a fresh, unrelocated segment with room assembles -- whatever the rest of the context is,
+   whatever stands before or after each statement -- to the bytes `all_bytes ts`, and `all_bytes` of a sequence is the
+   concatenation of what each statement assembles to alone.  Any length, any statements of that class. *)
+Theorem C01_concat : forall fuel ts c name seg bs,
+  current_segment c = Some name -> seg_get (segments c) name = Some seg ->
+  so_target_address (g_options seg) = so_initial_pc (g_options seg) -> 0 <= so_initial_pc (g_options seg) ->
+  g_pc seg = so_initial_pc (g_options seg) -> g_writes seg = [] -> g_has_data seg = false ->
+  forallb position_independent ts = true -> all_bytes ts = Some bs ->
+  g_pc seg + Z.of_nat (length bs) <= 65535 ->
+  exists c' seg', emit_tokens (emit_token (S fuel)) ts c = Ret tt c' /\ same_rest c c' /\
+                  seg_get (segments c') name = Some seg' /\ range_data seg' = bs /\
+                  g_pc seg' = g_pc seg + Z.of_nat (length bs).
+Proof. exact concat_emit. Qed.
+Print Assumptions C01_concat.
+
+Theorem C01_concat_is_each_alone : forall ts bs, all_bytes ts = Some bs ->
+  exists parts, Forall2 (fun t b => all_bytes [t] = Some b) ts parts /\ bs = concat parts.
+Proof. exact concat_alone. Qed.
+Print Assumptions C01_concat_is_each_alone.
 
 (* non-vacuity: the hypotheses are met by ordinary instructions *)
 Example C01_example_lda : code_encode Lda FAbs 255 None = Some [165%N; 255%N] /\
